@@ -110,9 +110,9 @@ fn kind(p: &Profile, d: &mut Dec) -> Kind {
         5 => {
             let subs = d.u8r(1, 4);
             let lifecycle = d.pct(p.probe_lifecycle_pct.min(100));
-            let synthetic = if d.pct(35) { Some(d.u8r(0, 3)) } else { None };
+            let synthetic = if d.pct(35) { Some((d.u8r(0, 3), d.pct(35))) } else { None };
             let fail_reg = if p.o_fail > 0 && d.pct(25) { Some(d.u8r(0, 4)) } else { None };
-            Kind::Probe { subs, lifecycle, synthetic: if lifecycle { synthetic.map(|s| s % subs) } else { None }, fail_reg }
+            Kind::Probe { subs, lifecycle, synthetic: if lifecycle { synthetic.map(|(s, on_sub)| s % subs + if on_sub { 128 } else { 0 }) } else { None }, fail_reg }
         }
         _ => {
             let n = d.len(1, 5);
